@@ -1,6 +1,7 @@
 package main
 
 import (
+	"unicode/utf8"
 	"fmt"
 	"go/types"
 	"sort"
@@ -119,6 +120,13 @@ func (c *Ctx) strFacts() []string {
 	for _, s := range c.strOrder {
 		n := c.strLits[s]
 		out = append(out, fmt.Sprintf("(= (strlen %s) %d)", n, len(s)))
+		if c.declared["fun:runeAt"] && len(s) > 0 {
+			r, w := utf8.DecodeRuneInString(s)
+			out = append(out, fmt.Sprintf("(and (= (runeAt %s 0) %d) (= (runeW %s 0) %d))", n, r, n, w))
+		}
+		if c.declared["fun:str_concat"] && len(s) == 0 {
+			out = append(out, fmt.Sprintf("(forall ((a Str)) (! (and (= (str_concat %s a) a) (= (str_concat a %s) a)) :pattern ((str_concat %s a)) :pattern ((str_concat a %s))))", n, n, n, n))
+		}
 		if c.declared["fun:rune_count"] {
 			ascii := true
 			for i := 0; i < len(s); i++ {
